@@ -915,6 +915,15 @@ func c7Replay(c *Cfg) {
 		fmt.Sscanf(name, "%d:%d:%d", &w, &n, &start)
 		c7Worker(c, w, n, start)
 		return
+	case "witness":
+		for _, p := range c7Witnesses() {
+			v := cuecontext.New().CompileString(p.src)
+			fmt.Printf("%s: err=%v validate=%v\n", p.name, v.Err(), v.Validate())
+			if name == "dump" {
+				os.WriteFile(filepath.Join(c.Out, strings.ReplaceAll(p.name, ":", "_")+".cue"), []byte(p.src), 0o666)
+			}
+		}
+		return
 	case "gen":
 		var n int
 		fmt.Sscanf(name, "%d", &n)
